@@ -228,6 +228,7 @@ def run(ctx: Ctx) -> None:
     from ..rules import memo
     memo.rule_memo_sound(ctx, [SRC, STATE])
     memo.rule_falsy_zero(ctx, [SRC, STATE])
+    memo.rule_arg_names(ctx, [SRC, STATE])
     numeric.rule_gf2round(ctx, armed=[(SRC, "_graph_finder")],
                           advisory=[(SRC, "_phase_correction"), (LCE, "_solution_basis_finder"), (LCE, "_vec_solution_finder")])
     ctx.floor("flow.missing-return", 25)
